@@ -1,6 +1,6 @@
 //! Uniform, panic-catching access to the real `sml_rs::transport::Decoder<B>` for
 //! every buffer kind, plus dispatch over const-generic capacities.
-use sml_rs::transport::{DecodeErr, Decoder, DecoderSnapshot};
+use sml_rs::transport::{DecodeErr, Decoder};
 use sml_rs::util::{ArrayBuf, Buffer};
 use std::cell::RefCell;
 use std::panic::{catch_unwind, AssertUnwindSafe};
@@ -111,21 +111,83 @@ pub fn with_buf<V: BufVisitor>(kind: BufKind, v: V) -> Option<V::Out> {
     }
 }
 
+/// Harness-side copy of the decoder snapshot (the hook's `DecoderSnapshot` when the `hooks`
+/// feature is built, an opaque constant otherwise).
+#[derive(Debug, Clone, PartialEq, Eq, Hash)]
+pub struct Snap {
+    pub tag: u8,
+    pub num_discarded_bytes: u64,
+    pub n: u64,
+    pub payload: [u8; 4],
+    pub raw_msg_len: u64,
+    pub crc: u16,
+    pub zero_cache: u64,
+    pub buf: Vec<u8>,
+}
+impl Snap {
+    pub const OPAQUE_TAG: u8 = 254;
+    pub fn opaque() -> Snap {
+        Snap { tag: Snap::OPAQUE_TAG, num_discarded_bytes: 0, n: 0, payload: [0; 4], raw_msg_len: 0, crc: 0, zero_cache: 0, buf: vec![] }
+    }
+    pub fn is_opaque(&self) -> bool {
+        self.tag == Snap::OPAQUE_TAG
+    }
+}
+#[cfg(feature = "hooks")]
+impl From<sml_rs::transport::DecoderSnapshot> for Snap {
+    fn from(s: sml_rs::transport::DecoderSnapshot) -> Snap {
+        Snap { tag: s.tag, num_discarded_bytes: s.num_discarded_bytes, n: s.n, payload: s.payload, raw_msg_len: s.raw_msg_len, crc: s.crc, zero_cache: s.zero_cache, buf: s.buf }
+    }
+}
+#[cfg(feature = "hooks")]
+impl Snap {
+    pub fn to_hook(&self) -> sml_rs::transport::DecoderSnapshot {
+        sml_rs::transport::DecoderSnapshot { tag: self.tag, num_discarded_bytes: self.num_discarded_bytes, n: self.n, payload: self.payload, raw_msg_len: self.raw_msg_len, crc: self.crc, zero_cache: self.zero_cache, buf: self.buf.clone() }
+    }
+}
+/// Are the hooks compiled in at all?
+pub const HOOKS_BUILT: bool = cfg!(feature = "hooks");
+
+/// The checksum that makes the frame in progress valid, from a snapshot: reference CRC continued
+/// from the register the hook exposes over the bytes received but not yet hashed.
+pub fn wanted_from_snap(s: &Snap) -> u16 {
+    let reg = s.crc ^ 0xffff;
+    let pend: &[u8] = if s.tag == 3 { &s.payload[..(s.n as usize).min(4)] } else { &[] };
+    let upto = match pend.iter().position(|&x| x == 0x1a) {
+        Some(k) => (k + 2).min(pend.len()),
+        None => pend.len(),
+    };
+    crate::refm::crc_update(reg, &pend[..upto]) ^ 0xffff
+}
+/// The same without any hook: reference CRC over the bytes since the last start sequence in
+/// `hist` (up to and including `1a p` if the tail is an end sequence in progress).
+pub fn wanted_from_history(hist: &[u8]) -> u16 {
+    let start = hist.windows(8).rposition(|w| w == crate::refm::START).unwrap_or(0);
+    let f = &hist[start..];
+    let l = f.len();
+    let upto = if l >= 3 && f[l - 3] == 0x1a { l - 1 } else { l };
+    crate::refm::crc_x25(&f[..upto])
+}
+
 /// Object-safe view of a real decoder.
 pub trait Dec: Send {
     fn push(&mut self, b: u8) -> Out;
     fn finalize(&mut self) -> Result<Option<DecodeErr>, String>;
     fn reset(&mut self) -> Result<usize, String>;
-    fn snap(&self) -> DecoderSnapshot;
+    fn snap(&self) -> Snap;
     fn dup(&self) -> Box<dyn Dec>;
     /// identity of this object's history when states must not be merged (stateless fallback)
     fn hist_key(&self, _out: &mut Vec<u8>) {}
+    /// the checksum bytes that can make the frame in progress valid (state-adaptive symbols)
+    fn wanted(&self) -> u16 {
+        wanted_from_snap(&self.snap())
+    }
 }
 
 /// `false` once the hook fidelity check has found that `verif_clone` / `verif_restore` do not
 /// carry the complete decoder state (e.g. a field was added to the decoder). Decoders are then
 /// duplicated by replaying their history on a new decoder, and states are never merged.
-pub static HOOKS_COMPLETE: std::sync::atomic::AtomicBool = std::sync::atomic::AtomicBool::new(true);
+pub static HOOKS_COMPLETE: std::sync::atomic::AtomicBool = std::sync::atomic::AtomicBool::new(HOOKS_BUILT);
 pub fn hooks_complete() -> bool {
     HOOKS_COMPLETE.load(std::sync::atomic::Ordering::Relaxed)
 }
@@ -158,7 +220,7 @@ impl Dec for ReplayDec {
         self.hist.push(HistOp::Reset);
         self.inner.reset()
     }
-    fn snap(&self) -> DecoderSnapshot {
+    fn snap(&self) -> Snap {
         self.inner.snap()
     }
     fn dup(&self) -> Box<dyn Dec> {
@@ -179,6 +241,27 @@ impl Dec for ReplayDec {
             }
         }
         Box::new(ReplayDec { inner: d, kind: self.kind, hist: self.hist.clone() })
+    }
+    fn wanted(&self) -> u16 {
+        if HOOKS_BUILT {
+            return self.inner.wanted();
+        }
+        let mut bytes: Vec<u8> = vec![];
+        for op in self.hist.iter().rev() {
+            match *op {
+                HistOp::Run(b, n) => {
+                    for _ in 0..n.min(70_000) {
+                        bytes.push(b);
+                    }
+                }
+                _ => break, // finalize / reset: nothing before it belongs to the frame in progress
+            }
+            if bytes.len() > 140_000 {
+                break;
+            }
+        }
+        bytes.reverse();
+        wanted_from_history(&bytes)
     }
     fn hist_key(&self, out: &mut Vec<u8>) {
         for op in &self.hist {
@@ -211,11 +294,21 @@ impl<B: Buffer + Send + 'static> Dec for Decoder<B> {
     fn reset(&mut self) -> Result<usize, String> {
         guarded(|| Decoder::reset(self))
     }
-    fn snap(&self) -> DecoderSnapshot {
-        self.verif_snapshot()
+    #[cfg(feature = "hooks")]
+    fn snap(&self) -> Snap {
+        self.verif_snapshot().into()
     }
+    #[cfg(feature = "hooks")]
     fn dup(&self) -> Box<dyn Dec> {
         Box::new(self.verif_clone().expect("verif_clone: buffer copy failed"))
+    }
+    #[cfg(not(feature = "hooks"))]
+    fn snap(&self) -> Snap {
+        Snap::opaque()
+    }
+    #[cfg(not(feature = "hooks"))]
+    fn dup(&self) -> Box<dyn Dec> {
+        unreachable!("without hooks decoders are only duplicated by replay")
     }
 }
 struct NewDec;
